@@ -16,6 +16,8 @@ import (
 	"strconv"
 	"strings"
 	"sync"
+	"sync/atomic"
+	"syscall"
 	"testing/fstest"
 	"time"
 
@@ -313,6 +315,12 @@ func c03Mutate(rng *core.Rng, s string) (string, string) {
 }
 
 var c03Ill = []string{
+	// map key types that are not scalars (F50)
+	"m := map[strang]any{}; m[\"self\"] = m; println(m)", "type T struct { }; m := map[*T]any{}; k := &T{}; m[k] = m; println(m)", "var m map[[]int]any; println(m, __type(m))", "m := make(map[map[string]int]any); m[nil] = m; println(m)", "type K struct { A int }; m := map[K][]any{}; println(m)",
+	// type expressions nested beyond the width of a packed type (slice levels take 8 bits, map levels 16)
+	"type T struct { A int }; var x [][][][][][][]*T; x", "type T struct { A int }; x := make([][][][][][][][]*T, 1); println(x, __type(x))", "type T struct { }; var m map[string]map[string]map[string][]*T; m2 := map[int]map[int]map[int]map[int]*T{}; println(__type(m), __type(m2))",
+	"var f [][][][][][][][][][]func(int) int; println(__type(f))", "var a [][][][][][][][][]any; println(a, __type(a))", "type T struct { N *T }; x := [][][][][][][][]*T{}; x = append(x, nil); println(x, __type(x), len(x))", "func f(a [][][][][][][][]map[string][]int) map[string]map[string]map[string]map[string]int { return nil }; println(f(nil))",
+	"type T struct { }; type U struct { X [][][][][][][][]*T; Y map[string]map[string]map[string]map[string]*T }; u := &U{}; println(u, __type(u.X), __type(u.Y))",
 	// cyclic values reaching a renderer (println, fmt, panic text, error text)
 	"m := map[string]any{}; m[\"self\"] = m; println(m)", "import \"fmt\"; m := map[int]any{}; m[1] = m; s := fmt.Sprint(m)", "m := map[string]any{}; m[\"a\"] = map[string]any{\"b\": m}; panic(m)",
 	"s := []any{nil}; s[0] = s; println(s)", "import \"fmt\"; s := []any{nil}; m := map[string]any{\"s\": s}; s[0] = m; fmt.Println(m, s)", "import \"fmt\"; type N struct { Next *N; Kids []any; M map[string]any }; n := &N{}; n.Next = n; n.Kids = []any{n}; n.M = map[string]any{\"n\": n}; fmt.Println(n); println(n.Kids, n.M)",
@@ -501,7 +509,12 @@ type c03WorkerOut struct {
 		Input   c03Input `json:"input"`
 	} `json:"violations"`
 	Samples []c03Input `json:"samples"`
+	HangAt  int        `json:"hang_at"` // index of an input that exceeded c03InputLimit (-1: none)
 }
+
+// c03InputLimit is the wall-clock limit for one input inside a worker (typical inputs take well under 10 ms,
+// the largest scale inputs under a second); exceeding it is only a suspicion, confirmed by the parent.
+const c03InputLimit = 30 * time.Second
 
 // C03Worker is the child-process entry: vcheck C03 worker <seed> <lo> <hi> <journal> <nprefix>
 func C03Worker(args []string) int {
@@ -516,11 +529,34 @@ func C03Worker(args []string) int {
 	thorough := args[4] == "thorough"
 	corpus := c03BuildCorpus(seed)
 	prefixes := c03Prefixes(corpus, thorough)
-	out := c03WorkerOut{Stages: map[string]int{}, Mutators: map[string]int{}}
+	out := c03WorkerOut{Stages: map[string]int{}, Mutators: map[string]int{}, HangAt: -1}
+	// per-input watchdog: the run stage is bounded by the instruction budget, so an input that keeps an entry
+	// point busy for this long is a stage that does not terminate. The stuck goroutine cannot be stopped:
+	// the worker reports what it has and exits; the parent re-confirms on the single input.
+	var curIdx, curStart atomic.Int64
+	curIdx.Store(-1)
+	ppid := os.Getppid()
+	go func() {
+		for {
+			time.Sleep(500 * time.Millisecond)
+			if os.Getppid() != ppid {
+				os.Exit(4) // the parent is gone
+			}
+			if i := curIdx.Load(); i >= 0 && time.Since(time.Unix(0, curStart.Load())) > c03InputLimit {
+				out.HangAt = int(i)
+				b, _ := json.Marshal(out)
+				os.Stdout.Write(b)
+				os.Exit(0)
+			}
+		}
+	}()
 	for idx := lo; idx < hi; idx++ {
 		in := c03MakeInput(seed, corpus, idx, prefixes)
 		fmt.Fprintf(journal, "%d\n", idx) // write-ahead: names the culprit if the process dies
+		curStart.Store(time.Now().UnixNano())
+		curIdx.Store(int64(idx))
 		res := c03Exec(in)
+		curIdx.Store(-1)
 		out.Done++
 		out.Stages[res.Stage]++
 		out.Mutators[in.Mutator]++
@@ -614,49 +650,72 @@ func runC03(r *core.Run) {
 		go func(w int) {
 			defer wg.Done()
 			for sp := range ch {
-				jpath := filepath.Join(tmp, fmt.Sprintf("journal-%d-%d", w, sp.lo))
-				out, stderr, state := c03RunChild(exe, r.Seed, sp.lo, sp.hi, jpath, r.Tier, 10*time.Minute)
-				mu.Lock()
-				switch state {
-				case "ok":
+				// a span is run by one child; when the child dies or reports a hang the culprit is recorded
+				// and a new child continues behind it
+				for lo := sp.lo; lo < sp.hi; {
+					mu.Lock()
+					stop := r.ViolationCount() >= 20
+					mu.Unlock()
+					if stop {
+						break // enough witnesses: the verdict is decided, do not spend minutes per further hang
+					}
+					jpath := filepath.Join(tmp, fmt.Sprintf("journal-%d-%d", w, lo))
+					out, stderr, state := c03RunChild(exe, r.Seed, lo, sp.hi, jpath, r.Tier, 10*time.Minute)
+					next := sp.hi
 					var wo c03WorkerOut
-					if err := json.Unmarshal(out, &wo); err != nil {
+					wo.HangAt = -1
+					parsed := state == "ok" && json.Unmarshal(out, &wo) == nil
+					culprit, what := -1, ""
+					switch {
+					case state == "ok" && !parsed:
+						mu.Lock()
 						r.Inconclusive("worker_output_unreadable")
-						break
-					}
-					r.Eval(wo.Done)
-					for k, v := range wo.Stages {
-						r.Count("last_stage:"+k, v)
-					}
-					for k, v := range wo.Mutators {
-						r.Count("mutator:"+k, v)
-					}
-					nontriv := wo.Done - wo.Stages["tokenize"]
-					r.DistinctN(nontriv)
-					for _, v := range wo.Violations {
-						r.Violate(core.Violation{Check: "c03", Index: v.Index, What: v.Problem, Case: v.Input})
-					}
-					for _, s := range wo.Samples {
-						r.Sample(s)
-					}
-				default:
-					// the child died or hung: the journal names the input
-					idx := c03LastJournal(jpath)
-					in := c03MakeInput(r.Seed, corpus, idx, prefixes)
-					what := "the process running the inputs died (" + state + ") while executing this input: " + firstLines(stderr, 3)
-					if state == "timeout" {
-						// confirm on the single input with a generous limit; the run stage is bounded by the
-						// instruction budget, so a hang is a stage that does not terminate
-						_, _, st2 := c03RunChild(exe, r.Seed, idx, idx+1, jpath+".single", r.Tier, 60*time.Second)
-						if st2 == "ok" {
+						mu.Unlock()
+					case parsed && wo.HangAt >= 0:
+						culprit = wo.HangAt
+						// confirm on the single input, in a process of its own
+						o2, _, st2 := c03RunChild(exe, r.Seed, culprit, culprit+1, jpath+".single", r.Tier, 2*c03InputLimit+30*time.Second)
+						var wo2 c03WorkerOut
+						wo2.HangAt = -1
+						if st2 == "ok" && json.Unmarshal(o2, &wo2) == nil && wo2.HangAt < 0 {
+							mu.Lock()
 							r.Inconclusive("worker_timeout_not_reproduced")
-							break
+							mu.Unlock()
+							culprit = -1
+							next = wo.HangAt + 1
+						} else {
+							what = fmt.Sprintf("an entry point did not return within %v on this input, in two separate processes", c03InputLimit)
 						}
-						what = "an entry point did not return within 60 s on this single input"
+					case state != "ok":
+						// the child died: the journal names the input
+						culprit = c03LastJournal(jpath)
+						what = "the process running the inputs died (" + state + ") while executing this input: " + firstLines(stderr, 3)
 					}
-					r.Violate(core.Violation{Check: "c03", Index: idx, What: what, Case: in, Observed: firstLines(stderr, 30)})
+					mu.Lock()
+					if parsed {
+						r.Eval(wo.Done)
+						for k, v := range wo.Stages {
+							r.Count("last_stage:"+k, v)
+						}
+						for k, v := range wo.Mutators {
+							r.Count("mutator:"+k, v)
+						}
+						r.DistinctN(wo.Done - wo.Stages["tokenize"])
+						for _, v := range wo.Violations {
+							r.Violate(core.Violation{Check: "c03", Index: v.Index, What: v.Problem, Case: v.Input})
+						}
+						for _, s := range wo.Samples {
+							r.Sample(s)
+						}
+					}
+					if culprit >= 0 {
+						in := c03MakeInput(r.Seed, corpus, culprit, prefixes)
+						r.Violate(core.Violation{Check: "c03", Index: culprit, What: what, Case: in, Observed: firstLines(stderr, 30)})
+						next = culprit + 1
+					}
+					mu.Unlock()
+					lo = next
 				}
-				mu.Unlock()
 			}
 		}(w)
 	}
@@ -694,6 +753,7 @@ func c03RunChild(exe string, seed int64, lo, hi int, journal, tier string, limit
 	var so, se bytes.Buffer
 	cmd.Stdout = &so
 	cmd.Stderr = &limitedBuffer{max: 1 << 20, w: &se}
+	cmd.SysProcAttr = &syscall.SysProcAttr{Pdeathsig: syscall.SIGKILL} // a worker never outlives its parent
 	if err := cmd.Start(); err != nil {
 		return nil, err.Error(), "spawn-failed"
 	}
@@ -731,9 +791,16 @@ func replayC03(r *core.Run, v *core.Violation) {
 	if err := remarshal(v.Case, &in); err != nil {
 		return
 	}
-	res := c03Exec(in)
-	fmt.Printf("stage=%s err=%q\n", res.Stage, res.Err)
-	if res.Problem != "" {
-		r.Violate(core.Violation{Check: "c03", What: res.Problem, Case: in})
+	// a replayed input may be one that never returns (or kills the process: then the replay dies the same way)
+	done := make(chan c03Result, 1)
+	go func() { done <- c03Exec(in) }()
+	select {
+	case res := <-done:
+		fmt.Printf("stage=%s err=%q\n", res.Stage, res.Err)
+		if res.Problem != "" {
+			r.Violate(core.Violation{Check: "c03", What: res.Problem, Case: in})
+		}
+	case <-time.After(c03InputLimit):
+		r.Violate(core.Violation{Check: "c03", What: fmt.Sprintf("an entry point did not return within %v on this input", c03InputLimit), Case: in})
 	}
 }
